@@ -115,6 +115,13 @@ func ordEvalBool(info *types.Info, e ast.Expr, env ordEnv, alias func(ast.Expr) 
 // orderings evaluated, and whether the condition could be evaluated at all.
 func ordCompare(info *types.Info, cond ast.Expr, terms []string, alias func(ast.Expr) string,
 	pre func(ordEnv) bool, want func(ordEnv) bool) (bad ordEnv, got bool, n int, evaluable bool) {
+	return ordCompareX(info, cond, terms, alias, pre, want, nil)
+}
+
+// ordCompareX additionally gives listed terms one extra sentinel value
+// (e.g. -1 for "unbounded"), tried against every ordering of the others.
+func ordCompareX(info *types.Info, cond ast.Expr, terms []string, alias func(ast.Expr) string,
+	pre func(ordEnv) bool, want func(ordEnv) bool, sentinel map[string]float64) (bad ordEnv, got bool, n int, evaluable bool) {
 	k := len(terms)
 	idx := make([]int, k)
 	evaluable = true
@@ -122,6 +129,9 @@ func ordCompare(info *types.Info, cond ast.Expr, terms []string, alias func(ast.
 		env := ordEnv{}
 		for i, t := range terms {
 			env[t] = float64(idx[i])
+			if sv, ok := sentinel[t]; ok && idx[i] == k {
+				env[t] = sv
+			}
 		}
 		if pre == nil || pre(env) {
 			v, ok := ordEvalBool(info, cond, env, alias)
